@@ -157,7 +157,10 @@ func genC36(r *rand.Rand, name string) *c36db {
 	ext.Cols = []c36col{{Name: "id", Type: "int not null", Family: "int"}, {Name: "c_float", Type: "float", Family: "float_max"}, {Name: "c_double", Type: "double", Family: "double_max"}}
 	ext.Tail = "primary key (id)"
 	ext.Rows = [][]string{{"1", "3.4028234e38", "1.7976931348623157e308"}, {"2", "-3.4028234e38", "-1.7976931348623157e308"}, {"3", "1.17549435e-38", "2.2250738585072014e-308"}}
-	db.Tables = append(db.Tables, nums, bits, ext)
+	db.Tables = append(db.Tables, nums, ext)
+	if r.Intn(2) == 0 { // BIT columns in half of the databases
+		db.Tables = append(db.Tables, bits)
+	}
 
 	// ---- strs
 	strs := &c36table{Name: "strs", Kind: "strs", Order: "id"}
